@@ -157,6 +157,30 @@ def static_classes(prog):
                 if _has_return(st) and not isinstance(st, ast.Return):
                     after_ret = True
         _scan(fn.body, False, False)
+    # (18) a lowered jump inside the protected block of a try that has an else clause: the jump becomes a flag
+    #      assignment, the protected block then runs to its end and the else clause — which Python skips — is executed
+    #      (break/continue/return passes have no guard for Try.orelse; a guard `if not flag:` there would start the else
+    #      block with an `if`, which cfg.build cannot handle — finding try_else_block_starts_with_if)
+    def _own_jump(nodes, inloop):
+        for st in nodes:
+            if isinstance(st, ast.Return):
+                return True
+            if isinstance(st, (ast.Break, ast.Continue)) and not inloop:
+                return True
+            if isinstance(st, (ast.FunctionDef, ast.ClassDef)):
+                continue
+            if isinstance(st, (ast.For, ast.While)):
+                if _own_jump(st.body, True) or _own_jump(st.orelse, inloop):
+                    return True
+                continue
+            blocks = [getattr(st, f, None) for f in ('body', 'orelse', 'finalbody')] + [h.body for h in getattr(st, 'handlers', [])]
+            for b in blocks:
+                if isinstance(b, list) and b and isinstance(b[0], ast.stmt) and _own_jump(b, inloop):
+                    return True
+        return False
+    for n in ast.walk(fn):
+        if isinstance(n, ast.Try) and n.orelse and _own_jump(n.body, False):
+            cls['jump_in_try_body_with_else_clause'] = True
     # (16) nonlocal/global declared inside a nested block of a (nested) function rather than at its top level: the
     #      parallel-block scope handling of activity analysis loses/misplaces the declaration
     for n in ast.walk(fn):
@@ -263,7 +287,8 @@ def classify(prog, mod, args, dec, static, orig_outcome=None, raised_at_del=Fals
         matches.append('del_of_unbound_name_does_not_raise')
     for k in ('global_assigned_in_converted_block', 'nonlocal_or_global_declared_in_nested_block', 'read_in_class_body', 'namedexpr_in_call_argument', 'call_in_return_annotation_of_nested_def', 'lambda_in_decorator_of_nested_def',
               'docstring_only_function_body',
-              'raise_in_finally_over_jump', 'except_handler_binds_name', 'try_else_block_starts_with_if', 'chained_comparison_effectful_middle_operand'):
+              'raise_in_finally_over_jump', 'except_handler_binds_name', 'try_else_block_starts_with_if', 'chained_comparison_effectful_middle_operand',
+              'jump_in_try_body_with_else_clause'):
         if k in static:
             matches.append(k)
     opn = open_classes()
@@ -368,6 +393,8 @@ def worker(spec):
         fam = list(progen.raise_handler_programs(info=info))
         step = spec.get('family_step', 1)
         progs += [p for i, p in enumerate(fam) if i % spec['nshards'] == spec['shard'] and (i // spec['nshards']) % step == spec['seed'] % step]
+        rfam = list(progen.return_try_programs(info=info))
+        progs += [p for i, p in enumerate(rfam) if i % spec['nshards'] == spec['shard'] and (i // spec['nshards']) % step == spec['seed'] % step]
         # interleave the families so that a time budget cuts all of them evenly
         rng.shuffle(progs)
     res = {'programs': 0, 'cases': 0, 'nontrivial': 0, 'failures': [], 'features': {}, 'outcomes': {}, 'configs': {},
